@@ -1,5 +1,6 @@
 """Runs histories on the real Namespace. stdin {"cases": [[op,...],...]}; per case returns
 {"ops": [op with values in stored form], "steps": [[out, state], ...]}."""
+import argparse
 import json
 import sys
 
@@ -62,6 +63,9 @@ def mutable_ids(o, acc):
         acc.add(id(o))
         for v in o:
             mutable_ids(v, acc)
+    elif isinstance(o, tuple):      # a tuple is immutable, the lists / dicts / Namespaces it holds are not
+        for v in o:
+            mutable_ids(v, acc)
     return acc
 
 
@@ -76,6 +80,35 @@ def branch_ids(o, acc):
         for v in o.values():
             branch_ids(v, acc)
     return acc
+
+
+def depth(k):
+    return len(k.split("."))
+
+
+def sorted_keys_wrong(ns, br):
+    """get_sorted_keys(branches) against items(): the leaf keys (plus, with branches, every proper prefix of a leaf key,
+    once), deepest first, keys of equal depth in the order in which items() / the prefix closure produce them"""
+    leaves = list(ns.keys())
+    got = ns.get_sorted_keys(br)
+    exp = list(leaves)
+    if br:
+        for k in leaves:
+            segs = k.split(".")
+            for n in range(1, len(segs)):
+                pre = ".".join(segs[:n])
+                if pre not in exp:
+                    exp.append(pre)
+    exp.sort(key=lambda k: -depth(k))
+    return got != exp or type(got) is not list
+
+
+def as_flat_wrong(ns, items):
+    flat = ns.as_flat()
+    if type(flat) is not argparse.Namespace:
+        return True
+    fl = list(vars(flat).items())
+    return [k for k, _ in fl] != [k for k, _ in items] or [id(v) for _, v in fl] != [id(v) for _, v in items]
 
 
 def run(ops):
@@ -98,11 +131,18 @@ def run(ops):
                 setattr(ns, op["k"], val)
                 out = {"unit": 0}
             elif kind == "get":
-                out = {"val": enc(ns[op["k"]])}
+                got = ns[op["k"]]
+                v2, par, leaf = ns.get_value_and_parent(op["k"])     # the same reading, with the parent mapping
+                if v2 is not got or not isinstance(par, (Namespace, dict)) or par[leaf] is not got:
+                    out = {"fail": "get_value_and_parent differs from ns[key]"}
+                else:
+                    out = {"val": enc(got)}
             elif kind == "getd":
                 out = {"val": enc(ns.get(op["k"], dflt))}
             elif kind == "contains":
-                out = {"bool": op["k"] in ns}
+                # a key that is not a string is never a member of a nested mapping with string keys
+                odd = [p for p in (None, 0, (op["k"],), op["k"].encode()) if (p in ns) is not False]
+                out = {"fail": "non-string key reported as member"} if odd else {"bool": op["k"] in ns}
             elif kind == "del":
                 del ns[op["k"]]
                 out = {"unit": 0}
@@ -111,6 +151,8 @@ def run(ops):
             elif kind in ("updv", "updns"):
                 r = ns.update(val, op.get("k"), op["ou"])
                 out = {"unit": 0} if r is ns else {"fail": "update did not return self"}
+                if kind == "updns" and enc(val) != sop["v"]:
+                    out = {"fail": "update modified the source namespace"}
             elif kind == "clone":
                 c = ns.clone()
                 ok = (c == ns) and enc(c) == enc(ns) and type(c) is Namespace
@@ -123,6 +165,10 @@ def run(ops):
                 vals = list(ns.values(br))
                 if keys != [k for k, _ in items] or [id(v) for v in vals] != [id(v) for _, v in items]:
                     out = {"fail": "keys/values are not the projections of items"}
+                elif sorted_keys_wrong(ns, br):
+                    out = {"fail": "get_sorted_keys is not the keys by descending depth"}
+                elif not br and as_flat_wrong(ns, items):
+                    out = {"fail": "as_flat is not the flat namespace of items()"}
                 else:
                     out = {"items": [[k, enc(v)] for k, v in items]}
             elif kind == "asdict":
@@ -139,10 +185,10 @@ def run(ops):
                     out = {"val": enc(d)}
             elif kind == "initdict":
                 ns = Namespace(val)
-                out = {"unit": 0}
+                out = {"unit": 0}     # values are stored by reference: a later entry 'b.c' may legitimately write into the caller's dict given for 'b'
             elif kind == "fromdict":
-                ns = dict_to_namespace(val)
-                out = {"unit": 0}
+                ns = dict_to_namespace(val)     # "converts": the dictionary given is the caller's and stays as it is
+                out = {"unit": 0} if enc(val) == sop["v"] else {"fail": "dict_to_namespace modified its argument"}
             elif kind == "getsteps":
                 cur = ns
                 for seg in op["k"].split("."):
